@@ -19,7 +19,8 @@ CFG = {
             "byte-order-sensitive ones (the table carries the big-endian and other-version hashes too); test-mode ethash for version 1; GetBlockVersion at heights around HF5/HF8/HF9 of "
             "all six built-in schedules and random fork maps; a seal-and-verify loop (18 s quick / 150 s thorough: threads 2,3,4,8,16, difficulty 2-4, versions 2-4, ~15-25k rounds per quick run on 16 idle cores, every returned block judged by the real VerifySeal; thorough tier additionally under the Go race detector); Header.Hash/HashNoNonce/Block.Hash/MinerHash for the version of the height and for explicit versions 0-5 (Keccak-256 and RLP "
             "recomputed in Lean); Seal with 1,2,3,4,8,16 threads at heights around the version forks, every returned seal re-verified. Non-trivial = a case the real code did not panic on.",
-    "tie": {"aquahash.epochLength / maxEpoch / maxUint256, argon2id parameters of crypto.VersionHash": "gen (value dump of package aquahash; behavioural match against x/crypto/argon2.IDKey in package crypto)",
+    "tie": {"params.(*ChainConfig).GetBlockVersion (mini-translator)": "translated (go/ssa -> Lean on every run; getBlockVersion_code_is_model) + corr",
+            "aquahash.epochLength / maxEpoch / maxUint256, argon2id parameters of crypto.VersionHash": "gen (value dump of package aquahash; behavioural match against x/crypto/argon2.IDKey in package crypto)",
             "params fork maps": "gen (value dump of package params)",
             "(*ChainConfig).GetBlockVersion": "corr (vs Model.getBlockVersion over generated fork maps) + Spec judgement (versionSpec over the schedules of record)",
             "(*Aquahash).VerifySeal": "corr (vs Model.verifySeal, hash values from the real primitives) + Spec judgement (SealValid)",
